@@ -80,6 +80,8 @@ def units(tier):
     out += [("hist", variant) for variant in ("plain", "mixin", "all_refs")]
     # a user-supplied Context shared by a sequence of build_json_schema calls with per-call overrides
     out += [("hist", "context:" + c) for c in CFam.CONTEXTS]
+    # one builder meeting two different dataclasses that share a __name__
+    out += [("hist", v) for v in ("twins", "twins_openapi", "twins_plain")]
     return out
 
 
@@ -275,6 +277,63 @@ class HModel:
         return (tuple(sorted(set(f.built))), tuple(sorted(f.builder.context.definitions)))
 
 
+class TFam(HFam):
+    """Two different dataclasses with ONE __name__ (defined one after the other, as a redefinition or two local classes are), each
+    used by a holder of its own, met by one builder."""
+
+    def __init__(self, variant):
+        from mashumaro.jsonschema import OPEN_API_3_1, JSONSchemaBuilder
+        self.ctx = space.Ctx()
+        self.ctx.run("@dataclass\nclass Item:\n    a: int\n")
+        self.ctx.ns["Item1"] = self.ctx.ns["Item"]
+        self.ctx.run("@dataclass\nclass H1:\n    x: Item1\n    xs: List[Item1] = field(default_factory=list)\n")
+        self.ctx.run("@dataclass\nclass Item:\n    b: str\n    c: float = 1.5\n")
+        self.ctx.ns["Item2"] = self.ctx.ns["Item"]
+        self.ctx.run("@dataclass\nclass H2:\n    y: Optional[Item2] = None\n    ys: Dict[str, Item2] = field(default_factory=dict)\n")
+        self.builder = JSONSchemaBuilder(OPEN_API_3_1) if variant == "twins_openapi" else JSONSchemaBuilder(all_refs=variant != "twins_plain")
+        self.built = []
+
+
+class TModel(HModel):
+    """Oracle: after build(T), T's document and every definition it can reach equal those of a fresh builder (what other,
+    unrelated definitions the builder still holds is not judged: that is F-SCHEMA-DEFS-NAME-COLLISION's territory)."""
+    TYPES = ("H1", "H2", "Item1", "Item2")
+
+    def initial(self):
+        return TFam(self.variant)
+
+    def apply(self, f, op):
+        try:
+            out = f.builder.build(f.ctx.ns[op[1]]).to_dict()
+            f.built.append(op[1])
+            defs = {k: v.to_dict() for k, v in f.builder.context.definitions.items()}
+            reach, todo = {}, [out]
+            while todo:
+                x = todo.pop()
+                if isinstance(x, dict):
+                    r = x.get("$ref")
+                    if isinstance(r, str):
+                        name = r.rsplit("/", 1)[-1]
+                        if name not in reach and name in defs:
+                            reach[name] = defs[name]
+                            todo.append(defs[name])
+                    todo.extend(x.values())
+                elif isinstance(x, list):
+                    todo.extend(x)
+            return ("ok", json.dumps(out, sort_keys=True), json.dumps(reach, sort_keys=True))
+        except RecursionError:
+            return ("exc", "RecursionError")
+        except Exception as e:   # noqa: BLE001
+            return ("exc", type(e).__name__, str(e)[:100])
+
+    def expected(self, h, op):
+        return self._fresh(op[1])
+
+    def canon(self, f):
+        return (tuple(sorted(set(f.built))), tuple(sorted(json.dumps(v.to_dict(), sort_keys=True)
+                                                           for v in f.builder.context.definitions.values())))
+
+
 class CFam:
     """One user-supplied Context shared by a sequence of build_json_schema(...) calls."""
     CONTEXTS = {"empty": {}, "all_refs": {"all_refs": True}, "openapi": {"dialect": "OPEN_API_3_1"}, "prefix": {"ref_prefix": "#/p"}}
@@ -362,7 +421,7 @@ class CModel:
 def run_hist(unit, only=None):
     _, variant = unit
     res = core.UnitResult()
-    model = CModel(variant) if variant.startswith("context:") else HModel(variant)
+    model = CModel(variant) if variant.startswith("context:") else (TModel(variant) if variant.startswith("twins") else HModel(variant))
     if only is not None:
         h, op = only
         f = hist.rebuild(model, h)
